@@ -38,3 +38,29 @@ Example C06_example :
   wrapper 0 [ {| p_required := false; p_state := Absent |}; {| p_required := true; p_state := Malformed |};
               {| p_required := true; p_state := Binds |} ] = [WErr 1].
 Proof. reflexivity. Qed.
+
+(** Which declaration governs (Model/Combine.v: CombineOperationParameters). *)
+From V Require Import Model.Combine Proofs.CombineProofs.
+
+(** every parameter the operation declares is in the combined list, unchanged *)
+Theorem C06_operation_level_declaration_governs : forall (A : Type) (g l out : list (@param A)),
+  combine_params g l = Some out -> forall p, In p l -> In p out.
+Proof. exact @local_governs. Qed.
+Print Assumptions C06_operation_level_declaration_governs.
+
+(** the combined list is exactly the operation's parameters plus the path-level ones it does not re-declare *)
+Theorem C06_combined_parameters_characterised : forall (A : Type) (g l out : list (@param A)),
+  combine_params g l = Some out ->
+  forall p, In p out <-> In p l \/ (In p g /\ ~ In (fst p) (map fst l)).
+Proof. exact @result_characterised. Qed.
+Print Assumptions C06_combined_parameters_characterised.
+
+Theorem C06_combined_keys_unique : forall (A : Type) (g l out : list (@param A)),
+  combine_params g l = Some out -> NoDup (map fst out).
+Proof. exact @result_keys_unique. Qed.
+Print Assumptions C06_combined_keys_unique.
+
+Theorem C06_duplicate_declarations_rejected : forall (A : Type) (g l out : list (@param A)),
+  combine_params g l = Some out -> NoDup (map fst l).
+Proof. exact @local_duplicates_rejected. Qed.
+Print Assumptions C06_duplicate_declarations_rejected.
